@@ -126,7 +126,7 @@ func (fr *frame) oblige(kind, label string, guard, goal string, pos token.Pos, p
 	if props == nil && e.rootSpec != nil {
 		props = e.rootSpec.Props
 	}
-	o := &Obligation{Name: name, Kind: kind, Func: e.root.String(), Props: props, nOut: len(e.out), Guard: guard, Goal: goal, Pos: e.pos(pos), Params: e.rootParams}
+	o := &Obligation{Name: name, Kind: kind, Func: e.root.String(), Props: props, nOut: len(e.out), Guard: guard, Goal: goal, Pos: e.pos(pos), Params: e.rootParams, enc: e}
 	e.obls = append(e.obls, o)
 	return o
 }
@@ -231,6 +231,9 @@ func (e *Enc) strLit(s string) string {
 func (fr *frame) wellFormed(t types.Type, x string, s *state) {
 	e := fr.e
 	e.assume(e.st.rangeAssume(t, x, 0))
+	if isTime(t) {
+		return
+	}
 	switch u := t.Underlying().(type) {
 	case *types.Slice:
 		top := e.get(s, "heapTop")
@@ -737,8 +740,54 @@ func (fr *frame) lookupLocal(name string, at *ssa.BasicBlock, st *state) (bindin
 			}
 		}
 	}
+	// phis named after the variable (any block dominating `at`); later definitions win
+	for _, b := range fr.fn.Blocks {
+		if !(b == at || b.Dominates(at)) {
+			continue
+		}
+		for _, ins := range b.Instrs {
+			phi, ok := ins.(*ssa.Phi)
+			if !ok {
+				break
+			}
+			if phi.Comment != name {
+				continue
+			}
+			if _, ok := fr.vals[phi]; !ok {
+				continue
+			}
+			if best == nil {
+				best = phi
+				continue
+			}
+			bb := fr.fn.Blocks[0]
+			if bi, ok := best.(ssa.Instruction); ok {
+				bb = bi.Block()
+			}
+			if bb != b && bb.Dominates(b) {
+				best = phi
+			}
+		}
+	}
 	if best != nil {
 		return binding{term: fr.val(best), typ: best.Type(), ptr: fr.ptrs[best]}, true
+	}
+	// a named result that has not been assigned yet holds its zero value
+	res := fr.fn.Signature.Results()
+	for k := 0; k < res.Len(); k++ {
+		if res.At(k).Name() == name {
+			hasAlloc := false
+			for _, b := range fr.fn.Blocks {
+				for _, ins := range b.Instrs {
+					if a, ok := ins.(*ssa.Alloc); ok && a.Comment == name {
+						hasAlloc = true
+					}
+				}
+			}
+			if !hasAlloc {
+				return binding{term: fr.e.st.zero(res.At(k).Type()), typ: res.At(k).Type()}, true
+			}
+		}
 	}
 	// address-taken locals / named results
 	for _, b := range fr.fn.Blocks {
